@@ -151,6 +151,10 @@ func (ndb *nodeDB) GetNode(nk []byte) (*Node, error) {
 
 	// Doesn't exist, load.
 	isLegcyNode := len(nk) == hashSize
+	if !isLegcyNode && len(nk) != int64Size+int32Size {
+		// child links are decoded from stored bytes: neither a legacy hash nor a (version, nonce) key
+		return nil, fmt.Errorf("invalid node key length %d", len(nk))
+	}
 	var nodeKey []byte
 	if isLegcyNode {
 		nodeKey = ndb.legacyNodeKey(nk)
